@@ -1179,9 +1179,9 @@ package serf
 
 //@ func (q *QueryParam) encodeFilters() (out [][]byte, err error)
 //@   requires receiver: q != nil
-//@   ensures shape: len(out) >= 0 && (nilSlice(out) ==> len(out) == 0) && (nilSlice(out) || arrayAllocated(out))
+//@   ensures shape [C33]: len(out) >= 0 && (nilSlice(out) ==> len(out) == 0) && (nilSlice(out) || arrayAllocated(out))
 //@   loop 1 vars filters [][]byte
-//@   loop 1 invariant shape: len(filters) >= 0 && len(filters) <= cap(filters) && (nilSlice(filters) ==> len(filters) == 0 && cap(filters) == 0) && (nilSlice(filters) || arrayAllocated(filters))
+//@   loop 1 invariant shape [C33]: len(filters) >= 0 && len(filters) <= cap(filters) && (nilSlice(filters) ==> len(filters) == 0 && cap(filters) == 0) && (nilSlice(filters) || arrayAllocated(filters))
 //@ end
 
 //@ func newQueryResponse(n int, q *messageQuery) (r *QueryResponse)
@@ -1190,9 +1190,11 @@ package serf
 //@   let ackCh := r.ackCh
 //@   let responses := r.responses
 //@   let acks := r.acks
-//@   ensures fresh_streams [C07]: r != nil && !old(allocated(r)) && allocated(r) && wfReplies(r) && !r.closed &&
-//@       r.id == q.ID && r.lTime == q.LTime && (ackCh != nil) == q.Ack() && (ackCh == nil) == (acks == nil) &&
-//@       sentN(respCh) == 0 && (ackCh != nil ==> sentN(ackCh) == 0 && allocatedRef(ackCh) && allocatedRef(acks)) && allocatedRef(respCh) && allocatedRef(responses)
+//@   ensures fresh_object [C07]: r != nil && !old(allocated(r)) && allocated(r) && !r.closed && r.id == q.ID && r.lTime == q.LTime
+//@   ensures ack_stream_iff_asked [C07]: (ackCh != nil) == q.Ack() && (ackCh == nil) == (acks == nil)
+//@   ensures empty_streams [C07]: sentN(respCh) == 0 && (ackCh != nil ==> sentN(ackCh) == 0)
+//@   ensures allocated_parts [C07]: (ackCh != nil ==> allocatedRef(ackCh) && allocatedRef(acks)) && allocatedRef(respCh) && allocatedRef(responses)
+//@   ensures wf [C07]: wfReplies(r)
 //@   # the streams and dedup sets are new objects: nothing that existed before is one of them
 //@   ensures new_objects [C07]: !old(allocatedRef(respCh)) && (ackCh != nil ==> !old(allocatedRef(ackCh)) && !old(allocatedRef(acks))) && !old(allocatedRef(responses))
 //@ end
@@ -1230,6 +1232,18 @@ package serf
 //@       uint64(r.lTime)+1 == logAt[uint64]("mint.LamportClock.counter", mint0) && r.lTime >= clk0
 //@   # C07: the reply streams are registered under that time
 //@   ensures registered [C07]: err == nil ==> mapHas(s.queryResponse, r.lTime) && mapAt(s.queryResponse, r.lTime) == r && wfRunningQueries(s)
+//@ end
+
+// name conflicts: the replies are whatever the peers sent (C09; the majority count itself is C36, not claimed)
+//@ func (s *Serf) handleNodeConflict(existing, other *memberlist.Node)
+//@   requires wf: s != nil && s.config != nil && existing != nil && other != nil
+//@ end
+//@ func (s *Serf) resolveNodeConflict()
+//@   requires wf: wfQueries(s) && wfMembers(s) && hasMember(s, s.config.NodeName) && wfRunningQueries(s) && wfLifecycle(s) && s.config.MemberlistConfig != nil
+//@   requires eventch_open: s.config.EventCh == nil || !closed(s.config.EventCh)
+//@   requires error_values: FeatureNotSupported != nil
+//@   loop 1 vars responses int, matching int
+//@   loop 1 invariant counted: 0 <= matching && matching <= responses
 //@ end
 
 // END-OF-CONTRACTS
